@@ -72,3 +72,13 @@ Example path_example :
   /\ generate_namespace_path sha3_256 [102; 111; 111; 46; 46; 98] = None
   /\ Z.even 104 = true /\ Z.even 152 = true.
 Proof. vm_compute. repeat split; discriminate. Qed.
+
+(* non-vacuity of the implications above (valid_names_are_ascii, alias_address_roundtrip, non_alias_address_has_no_id): a valid name,
+   an identifier / network pair in range with its alias address, and a non-alias address meet the premises *)
+Example premises_nonvacuous :
+  is_valid_namespace_name [102; 111; 111] = true
+  /\ (0 <= 2 ^ 63 + 5 < 2 ^ 64 /\ Z.even 104 = true
+      /\ address_to_namespace_id (address_from_namespace_id (2 ^ 63 + 5) 104) = Some (2 ^ 63 + 5))
+  /\ (Z.land (nth 0 (104 :: repeat 7 23) 0) 1 = 0 /\ address_to_namespace_id (104 :: repeat 7 23) = None).
+Proof. vm_compute. repeat split; try reflexivity; discriminate. Qed.
+Print Assumptions premises_nonvacuous.
